@@ -158,7 +158,8 @@ def expectation(L, corrupt):
 def configs(tier):
     if tier == "quick":
         return [dict(L=L, k=1, variants=1) for L in range(10)]
-    return [dict(L=L, k=2, variants=2) for L in range(10)] + [dict(L=L, k=1, variants=3) for L in (0, 3, 4, 9)]
+    # thorough: two runs of not-valid words per packet (payload pattern 0), and one run with three tails and two payload patterns
+    return [dict(L=L, k=2, variants=1) for L in range(10)] + [dict(L=L, k=1, variants=2) for L in range(10)]
 
 
 # slot = (expect, reason, payload, L, phase, verdict, got, behind_bare_header)     phase 0 header, 1 window open, 2 CRC complete
@@ -168,13 +169,15 @@ class DataRxSpec(Spec):
         L, k, nv = cfg["L"], cfg["k"], cfg["variants"]
         # every amaranth.sim replay re-elaborates the DUT (two wide CRC XOR trees: ~10 s of CPU each), so few paths are replayed
         self.n_validate = 1 if tier == "quick" else 3
-        self.time_budget = 300 if tier == "quick" else 850       # safety net only (a quick config needs 10-20 s of CPU)
-        tails = (0, 5) if tier == "quick" else (0, 1, 5)
+        # safety nets only (a quick config has < 1000 states and needs 10-20 s of CPU); the state cap is the deterministic one
+        self.time_budget = 900
+        self.max_states = 20000 if tier == "quick" else 200000
+        tails = (0, 5) if (tier == "quick" or k >= 2) else (0, 1, 5)
         n = n_words(L)
         single = [(p, g, f) for p in range(1, n + 1) for g in (1, 2) for f in "zs"]
         gapsets = [()] + [(g,) for g in single]
         if k >= 2:
-            second = [(p, 1, f) for p in range(1, n + 1) for f in "zs"]
+            second = [(p, 1, "z") for p in range(1, n + 1)]
             gapsets += [(a, b) for a in single for b in second if b[0] > a[0]]
         acts = []
         for var in range(nv):
